@@ -52,6 +52,10 @@ type End struct {
 	nw, nr int
 	Closes int
 	wshut  bool
+	// StdinLike: a Read that is blocked (or starts) after Close keeps waiting for
+	// data instead of failing, like a terminal or pipe read that close(2) from
+	// another thread does not interrupt. This is the case x/fakenet exists for.
+	StdinLike bool
 }
 
 // Pipe returns the two connected ends; capacity 0 is a synchronous pipe.
@@ -105,7 +109,7 @@ func (e *End) Read(b []byte) (int, error) {
 	}
 	h := e.in
 	for {
-		if e.closed {
+		if e.closed && !e.StdinLike {
 			return 0, ErrClosed
 		}
 		if h.cut {
